@@ -321,7 +321,7 @@ def run_growth(spec, res):
         cap = mx if mx is not None else float("inf")
         ok16 = b == min(a * 16, cap)
         ok2 = b == min(a * 2, cap)
-        must16 = a * 16 <= MIB
+        must16 = a <= MIB  # afkak documents it: x16 while the buffer is at most 1 MiB ('could result in 16MB buf'), then x2
         must2 = a > MIB
         if (must16 and not ok16) or (must2 and not ok2) or not (ok16 or ok2):
             res.violate("growth/wrong-step", "fetch buffer went from %d to %d (maximum %r): expected x16 up to 1 MiB, "
